@@ -3,6 +3,7 @@
 package deb
 
 import (
+	"archive/tar"
 	"bytes"
 	"crypto/md5"
 	"strconv"
@@ -140,6 +141,20 @@ func Verif_C04_DebStructure() {
 		}
 	}
 	v.Assert(okNames, "deb-member-names-unique-dot-slash-dirs-end-in-slash")
+	// dpkg's own tar reader knows the GNU extensions but not PAX: every data and
+	// control member is written with the GNU format so that long names never turn into PAX records
+	okFmt := true
+	for _, e := range d.data {
+		if e.Format != int(tar.FormatGNU) {
+			okFmt = false
+		}
+	}
+	for _, e := range d.control {
+		if e.Format != int(tar.FormatGNU) {
+			okFmt = false
+		}
+	}
+	v.Assert(okFmt, "deb-tar-members-use-the-gnu-format")
 }
 
 // Verif_C08_DebConffiles: conffiles lists exactly the config* entries by absolute path.
